@@ -1280,3 +1280,262 @@ func isIndexSearchFunc(c *Ctx, g *types.Func, depth int) bool {
 	})
 	return hit
 }
+
+func init() {
+	register(&Rule{ID: "R2.search-unconditional", Props: []string{"C02", "C19"}, Floor: 1,
+		Text: "the index answers every search itself: in the function that searches the spatial index (found by role: it hands its rectangle to the quantiser and calls Search on Collection.spatial), the Search call is conditioned only on the query rectangle and values computed from it (the NaN guard) — never on other state of the collection (derived bounds, counters): such state is computed differently from the index (Bounds() reports the float64 edge of the entry with the extreme float32 key, ties broken arbitrarily) and a pre-filter on it loses results the index would have found",
+		Run:  ruleSearchUnconditional})
+}
+
+func ruleSearchUnconditional(c *Ctx) {
+	spatial := c.Field("internal/collection", "Collection", "spatial")
+	if spatial == nil {
+		c.und("anchors", 0, "Collection.spatial not found")
+		return
+	}
+	n := 0
+	for _, fn := range c.AllFuncs("internal/collection") {
+		if !isIndexSearchFunc(c, fn.Obj, 0) || fn.Decl.Body == nil {
+			continue
+		}
+		info := fn.Info()
+		sig := fn.Obj.Type().(*types.Signature)
+		rect := sig.Params().At(0)
+		fg := newFlowGraph(info, fn.Decl.Body)
+		searches := fg.FindCalls(func(f *types.Func, call *ast.CallExpr) bool {
+			se, ok := ast.Unparen(call.Fun).(*ast.SelectorExpr)
+			return ok && se.Sel.Name == "Search" && selField(info, se.X) == spatial
+		})
+		if len(searches) == 0 {
+			continue
+		}
+		// values computed from the query rectangle
+		fromRect := map[types.Object]bool{rect: true}
+		mentionsOnlyRect := func(e ast.Expr) (bool, string) {
+			okAll, what := true, ""
+			ast.Inspect(e, func(x ast.Node) bool {
+				switch y := x.(type) {
+				case *ast.SelectorExpr:
+					// a selector rooted at a rectangle-derived value is fine as a whole
+					root := ast.Expr(y)
+					for {
+						if s2, ok := ast.Unparen(root).(*ast.SelectorExpr); ok {
+							root = s2.X
+							continue
+						}
+						if ix, ok := ast.Unparen(root).(*ast.IndexExpr); ok {
+							root = ix.X
+							continue
+						}
+						break
+					}
+					if id, ok := ast.Unparen(root).(*ast.Ident); ok {
+						if _, isPkg := info.ObjectOf(id).(*types.PkgName); isPkg || fromRect[info.ObjectOf(id)] {
+							return false
+						}
+					}
+				case *ast.Ident:
+					switch o := info.ObjectOf(y).(type) {
+					case *types.Var:
+						if !fromRect[o] && !o.IsField() {
+							okAll, what = false, y.Name
+						}
+					}
+				}
+				return true
+			})
+			return okAll, what
+		}
+		for changed := true; changed; {
+			changed = false
+			inspectNoLit(fn.Decl.Body, func(x ast.Node) bool {
+				as, ok := x.(*ast.AssignStmt)
+				if !ok {
+					return true
+				}
+				all := true
+				for _, r := range as.Rhs {
+					if ok, _ := mentionsOnlyRect(r); !ok {
+						all = false
+					}
+				}
+				if !all {
+					return true
+				}
+				for _, l := range as.Lhs {
+					if id, ok := ast.Unparen(l).(*ast.Ident); ok {
+						if o := info.ObjectOf(id); o != nil && !fromRect[o] {
+							fromRect[o] = true
+							changed = true
+						}
+					}
+				}
+				return true
+			})
+		}
+		for _, sl := range searches {
+			n++
+			key := funcName(fn.Obj) + "→spatial.Search"
+			bad := ""
+			for _, f := range fg.DominatingFacts(sl) {
+				if ok, what := mentionsOnlyRect(f.E); !ok {
+					bad = exprStr(f.E) + " (depends on " + what + ")"
+				}
+			}
+			c.check(bad == "", key, sl.Node.Pos(), "the index search is conditioned only on the query rectangle", "the index search is skipped depending on "+bad+": state that is not computed from the query rectangle decides whether the index is consulted, so a window the index would answer can come back empty")
+		}
+	}
+	c.stat("index_search_sites", n)
+}
+
+func init() {
+	register(&Rule{ID: "R2.quantiser-corners", Props: []string{"C02", "C13"}, Floor: 1,
+		Text: "the float32 box of an index entry contains the float64 box it stands for, corner by corner: every value the quantiser (rtreeRect) returns as the lower corner is {rtreeValueDown(rect.Min.X), rtreeValueDown(rect.Min.Y)} and every value it returns as the upper corner is {rtreeValueUp(rect.Max.X), rtreeValueUp(rect.Max.Y)}, on every return — a shortcut that reuses the rounded-down corner as the upper corner of a point leaves the point outside its own index box whenever a coordinate is not a float32 value, and the best-first NEARBY traversal, whose node distance must be a lower bound, then visits nodes in the wrong order",
+		Run:  ruleQuantiserCorners})
+}
+
+func ruleQuantiserCorners(c *Ctx) {
+	fn := c.Func("internal/collection", "", "rtreeRect")
+	if fn == nil || fn.Decl.Body == nil {
+		c.und("anchors", 0, "rtreeRect not found")
+		return
+	}
+	info := fn.Info()
+	sig := fn.Obj.Type().(*types.Signature)
+	if sig.Params().Len() != 1 || sig.Results().Len() != 2 {
+		c.und("shape", fn.Decl.Pos(), "rtreeRect is expected to take one rectangle and return two corners")
+		return
+	}
+	rect := sig.Params().At(0)
+	// class of a corner expression: "down" / "up" / ""
+	var class func(e ast.Expr, depth int) string
+	class = func(e ast.Expr, depth int) string {
+		e = ast.Unparen(e)
+		switch x := e.(type) {
+		case *ast.CompositeLit:
+			if len(x.Elts) != 2 {
+				return ""
+			}
+			kinds := [2]string{}
+			for i, el := range x.Elts {
+				call, ok := ast.Unparen(el).(*ast.CallExpr)
+				if !ok || len(call.Args) != 1 {
+					return ""
+				}
+				f := callee(info, call)
+				if f == nil {
+					return ""
+				}
+				// argument rect.Min.X / rect.Min.Y / rect.Max.X / rect.Max.Y
+				se, ok := ast.Unparen(call.Args[0]).(*ast.SelectorExpr)
+				if !ok {
+					return ""
+				}
+				axis := se.Sel.Name
+				cs, ok := ast.Unparen(se.X).(*ast.SelectorExpr)
+				if !ok {
+					return ""
+				}
+				if id, ok := ast.Unparen(cs.X).(*ast.Ident); !ok || info.ObjectOf(id) != rect {
+					return ""
+				}
+				want := "X"
+				if i == 1 {
+					want = "Y"
+				}
+				if axis != want {
+					return ""
+				}
+				switch {
+				case f.Name() == "rtreeValueDown" && cs.Sel.Name == "Min":
+					kinds[i] = "down"
+				case f.Name() == "rtreeValueUp" && cs.Sel.Name == "Max":
+					kinds[i] = "up"
+				default:
+					return ""
+				}
+			}
+			if kinds[0] == kinds[1] {
+				return kinds[0]
+			}
+			return ""
+		case *ast.Ident:
+			if depth > 2 {
+				return ""
+			}
+			obj := info.ObjectOf(x)
+			cls, n := "", 0
+			ast.Inspect(fn.Decl.Body, func(m ast.Node) bool {
+				as, ok := m.(*ast.AssignStmt)
+				if !ok || len(as.Lhs) != len(as.Rhs) {
+					return true
+				}
+				for i, l := range as.Lhs {
+					if lid, ok := ast.Unparen(l).(*ast.Ident); ok && info.ObjectOf(lid) == obj {
+						k := class(as.Rhs[i], depth+1)
+						if n == 0 {
+							cls = k
+						} else if k != cls {
+							cls = ""
+						}
+						n++
+					}
+				}
+				return true
+			})
+			return cls
+		}
+		return ""
+	}
+	n := 0
+	inspectNoLit(fn.Decl.Body, func(m ast.Node) bool {
+		r, ok := m.(*ast.ReturnStmt)
+		if !ok {
+			return true
+		}
+		n++
+		key := fmt.Sprintf("rtreeRect/return%d", n)
+		var lo, hi string
+		switch len(r.Results) {
+		case 2:
+			lo, hi = class(r.Results[0], 0), class(r.Results[1], 0)
+		case 0:
+			lo = class(&ast.Ident{Name: sig.Results().At(0).Name(), NamePos: r.Pos()}, 0)
+			hi = lo
+			// named results: look the objects up directly
+			for i := 0; i < 2; i++ {
+				obj := sig.Results().At(i)
+				cls, k := "", 0
+				ast.Inspect(fn.Decl.Body, func(z ast.Node) bool {
+					as, ok := z.(*ast.AssignStmt)
+					if !ok || len(as.Lhs) != len(as.Rhs) {
+						return true
+					}
+					for j, l := range as.Lhs {
+						if lid, ok := ast.Unparen(l).(*ast.Ident); ok && info.ObjectOf(lid) == obj {
+							kk := class(as.Rhs[j], 1)
+							if k == 0 {
+								cls = kk
+							} else if kk != cls {
+								cls = ""
+							}
+							k++
+						}
+					}
+					return true
+				})
+				if i == 0 {
+					lo = cls
+				} else {
+					hi = cls
+				}
+			}
+		}
+		c.check(lo == "down" && hi == "up", key, r.Pos(), "lower corner rounded down from rect.Min, upper corner rounded up from rect.Max",
+			"this return of the quantiser does not hand back {Down(rect.Min.X), Down(rect.Min.Y)} and {Up(rect.Max.X), Up(rect.Max.Y)}: an index box no longer contains the box it stands for (a point whose coordinates are not float32 values lies outside its own entry), so searches at its edge and the lower-bound ordering of NEARBY go wrong")
+		return true
+	})
+	if n == 0 {
+		c.und("returns", fn.Decl.Pos(), "rtreeRect has no return statement")
+	}
+}
